@@ -29,3 +29,17 @@ package mkvs
 //@   ensures err != nil ==> db.GBatchCommitsOK == old(db.GBatchCommitsOK)
 //@   ensures db.GBatchCommitsOK <= old(db.GBatchCommitsOK) + 1
 //@   note the hook passed to commitWithHooks accepts exactly the expected root hash (closure clause), so a successful batch commit implies the computed root equals the expected one; otherwise ErrKnownRootMismatch and nothing is committed
+
+// ---- pending write log (C13): the entry recorded for a key carries the value and the leaf of the LAST insert ----
+
+//@ func tree.Insert
+//@   props C13
+//@   requires t != nil && t.cache != nil
+//@   precall mkvs\.cache\)\.setPendingRoot$ :: t.withoutWriteLog || (t.pendingWriteLog[ufr[string]("toMapKey", key)] != nil && t.pendingWriteLog[ufr[string]("toMapKey", key)].insertedLeaf == result.insertedLeaf && bytesId(t.pendingWriteLog[ufr[string]("toMapKey", key)].value) == bytesId(value))
+//@   note the stored write log and its annotations are built from these entries at commit: a stale leaf (e.g. nil after remove + re-insert in one batch) would make the database serve a log that does not reproduce the new root
+
+//@ func tree.RemoveExisting
+//@   props C13
+//@   requires t != nil && t.cache != nil
+//@   precall mkvs\.cache\)\.setPendingRoot$ :: t.withoutWriteLog || (entry != nil && entry.value == nil && entry.insertedLeaf == nil) || (entry == nil && t.pendingWriteLog[ufr[string]("toMapKey", key)] != nil && t.pendingWriteLog[ufr[string]("toMapKey", key)].insertedLeaf == nil && t.pendingWriteLog[ufr[string]("toMapKey", key)].value == nil)
+//@   note after a removal the entry recorded for the key has no value and no inserted leaf: the stored log will contain a deletion (or nothing, if the key did not exist before)
